@@ -13,7 +13,7 @@
 //	sections   the rest of the body cut after every text `\n}` at column 0 (the end of a top-level Go
 //	           declaration).  A piece is named after the `func` / `var` line of its top-level text
 //	           (table, IsValid, Values, StringValues, String, ParseString, Parse, ParseGeneric); a piece
-//	           that is one `range … (index $.Traits $i)` block is the trait accessor.  The codec blocks
+//	           that is one `range` block writing `func (e T) Name() Type {` per element is the trait accessor.  The codec blocks
 //	           (`if $.GenJSON` …) are counted, not translated.
 //
 // Fragment: text; `{{pipeline}}`; `{{$x := pipeline}}`; if / else; with / else; range [$i,] [$x :=] / else;
@@ -374,7 +374,8 @@ func runGenumTmpl(repo, out string) {
 		if len(p) == 1 {
 			switch x := p[0].(type) {
 			case *parse.RangeNode:
-				if strings.Contains(x.Pipe.String(), "$.Traits") {
+				// a range that writes one niladic method `func (e T) Name() Type {` per element: the trait accessors
+				if hs := gtHeader(x.List.Nodes); len(hs) == 1 && strings.HasPrefix(hs[0], "func (e @) @() @ {") && x.ElseList == nil {
 					name = "Accessor"
 				}
 			case *parse.IfNode, *parse.WithNode:
